@@ -338,6 +338,8 @@ pub fn value_leaves(thorough: bool) -> Vec<RefVal> {
 }
 
 pub fn run(rep: &Report) -> serde_json::Value {
+    // terms that arrive under a distribution header: a conforming sender's cache histories through one real cache
+    crate::c14::sender_histories(rep);
     // decoding must be a function of the input alone (no state left behind by rejected inputs)
     let hist = crate::hist::history_independence(rep);
     rep.set_extra("history_independence", hist);
@@ -391,6 +393,23 @@ pub fn run(rep: &Report) -> serde_json::Value {
         composites.push(RefVal::map(vec![(k1.clone(), RefVal::atom("a")), (k2.clone(), RefVal::atom("b"))]));
         composites.push(RefVal::Tuple(vec![RefVal::map(vec![(k2.clone(), RefVal::int(1)), (k1.clone(), RefVal::int(2))])]));
         composites.push(RefVal::map(vec![(k1, RefVal::atom("a")), (k2, RefVal::atom("b")), (RefVal::atom("z"), RefVal::Nil)]));
+    }
+    // maps (and lists) holding two identifiers that differ in exactly one field: no entry may be dropped or merged
+    {
+        let pid = |id: u32, serial: u32, creation: u32, node: &str| RefVal::Pid { node: node.into(), id, serial, creation };
+        let port = |id: u64, creation: u32| RefVal::Port { node: "n@h".into(), id, creation };
+        let rf = |ids: Vec<u32>, creation: u32| RefVal::Ref { node: "n@h".into(), creation, ids };
+        let pairs: Vec<(RefVal, RefVal)> = vec![
+            (pid(1, 2, 3, "n@h"), pid(1, 2, 4, "n@h")), (pid(1, 2, 3, "n@h"), pid(1, 3, 3, "n@h")), (pid(1, 2, 3, "n@h"), pid(2, 2, 3, "n@h")), (pid(1, 2, 3, "n@h"), pid(1, 2, 3, "m@h")),
+            (pid(1, 2, 0, "n@h"), pid(1, 2, u32::MAX, "n@h")), (port(5, 1), port(5, 2)), (port(5, 1), port(5 + (1 << 32), 1)), (port(5, 1), port(6, 1)),
+            (rf(vec![1, 2, 3], 1), rf(vec![1, 2, 3], 2)), (rf(vec![1, 2, 3], 1), rf(vec![1, 2, 4], 1)), (rf(vec![1, 2, 3], 1), rf(vec![1, 2], 1)), (rf(vec![1], 1), rf(vec![1, 0], 1)),
+        ];
+        for (a, b) in pairs {
+            composites.push(RefVal::map(vec![(a.clone(), RefVal::int(1)), (b.clone(), RefVal::int(2))]));
+            composites.push(RefVal::map(vec![(b.clone(), RefVal::int(2)), (a.clone(), RefVal::int(1))]));
+            composites.push(RefVal::list(vec![a.clone(), b.clone()], RefVal::Nil));
+            composites.push(RefVal::map(vec![(RefVal::Tuple(vec![a.clone()]), RefVal::Nil), (RefVal::Tuple(vec![b.clone()]), RefVal::Nil)]));
+        }
     }
     // larger trees: one alternative varied at a time
     for t in composites_l2() {
